@@ -1,17 +1,22 @@
 """C20 Contacts are geometrically valid (closed-form primitives + contact frame).
 
-Nonlinear real-arithmetic solver queries over the REAL functions (see checks/geom_c20.py for the proof scripts):
+Nonlinear real-arithmetic solver queries over the REAL functions (see checks/geom_c20.py for the proof scripts and the
+closed-form references):
   make_frame / orthogonals   for every non-zero normal: orthonormal, right-handed frame whose first axis is the normalised input
   plane_sphere               dist = signed distance sphere surface - plane, pos midway, foot point on the plane
   sphere_sphere              unit normal from centre 1 to centre 2 ((1,0,0) if coincident), dist = |c2-c1| - r1 - r2, pos midway
   closest_segment_point      result on the segment, closest point up to the code's 1e-6 regulariser
   sphere_capsule             = sphere vs sphere of the capsule radius at that segment point (normal, dist, pos as above)
-  plane_capsule              frame (plane normal, projected capsule axis, cross product) orthonormal; both end-cap contacts
+  plane_capsule              frame (plane normal, projected capsule axis or orthogonalised default axis, cross product)
+                             orthonormal in all three regimes; both end-cap contacts
   capsule_capsule            non-parallel: contact at the closest points of the two axis segments (KKT of the clamped convex
-                             quadratic), sphere-pair normal / dist / pos; parallel: each contact = (segment end, closest point
-                             of the other segment)
+                             quadratic); parallel: each contact = (segment end, closest point of the other segment)
   plane_box                  8 corner candidates: signed distance, midway pos, plane normal
-Outside: GJK/EPA, box-box, sphere/capsule-box, mesh, ellipsoid, cylinder, heightfield and SDF pairs; float32 rounding.
+  sphere_cylinder            side wall / caps / rims, both signs of the axial coordinate, centre inside or outside
+  sphere_box                 outside: nearest box point (per-coordinate projection); inside: nearest face
+  plane_ellipsoid            support point on the surface with surface normal opposite to the plane normal
+  plane_cylinder             four rim contacts (lowest point, far cap, two side points), incl. axis parallel to the normal
+Outside: box_box, capsule_box, the *_triangle functions, GJK/EPA, mesh, heightfield and SDF pairs; float32 rounding.
 """
 
 from checks import geom_c20
